@@ -5,6 +5,7 @@ CONSTANTS
   MaxAgents = 10
   SetCountBroadcasts = TRUE
   HWM = 1000000000
+  Slack = 1500
 CONSTRAINT HighWater
 POSTCONDITION TraceAccepted
 CHECK_DEADLOCK FALSE
